@@ -372,6 +372,7 @@ class C17(F.Check):
             return r
         last = {'choices': []}
         ex = explore.Explorer(guarded, check, dev_kinds=('app',), max_dev=cfg['max_dev'], cache=True, max_runs=400000)
+        ex.stop_when = lambda: res.counters['violating_cases'] >= 300
         try:
             ex.run()
         except StopJob:
